@@ -42,9 +42,11 @@ Definition identity_call : call_args :=
 Definition model_reap_to_ds_call : call_args :=
   {| ca_var_names := AVarNames; ca_var_dims := AVarDims; ca_var_coords := AVarCoords;
      ca_constants := AConstants; ca_resources := AEmpty; ca_attrs := AAttrs; ca_parse := AParse |}.
+(* the constants a crop describes its data with: the runner's, overridden by those given at sow time (recorded
+   with the crop) -- the same precedence as the call-time constants of a direct run *)
 Definition model_reap_runner_call : call_args :=
   {| ca_var_names := RVarNames; ca_var_dims := RVarDims; ca_var_coords := RVarCoords;
-     ca_constants := RConstants; ca_resources := AEmpty; ca_attrs := RAttrs; ca_parse := AFalse |}.
+     ca_constants := RConstantsPlusCall; ca_resources := AEmpty; ca_attrs := RAttrs; ca_parse := AFalse |}.
 Definition model_run_combos_call : call_args :=
   {| ca_var_names := RVarNames; ca_var_dims := RVarDims; ca_var_coords := RVarCoords;
      ca_constants := RConstantsPlusCall; ca_resources := RResources; ca_attrs := RAttrs; ca_parse := AFalse |}.
